@@ -10,11 +10,11 @@ Section Loops.
   Notation I := (interp ftab).
 
   (* reference semantics of "run the preconditions in application order, stop at the first that does not accept" *)
-  Fixpoint run_vals (n : nat) (l : list validator) (a : pargs) (k : pkwargs) (w : world) : res unit :=
+  Fixpoint run_vals (n : nat) (l : list validator) (a : pargs) (k : pkwargs) (exc : option exn) (w : world) : res unit :=
     match l with
     | [] => Done (inl tt) w
-    | v :: t => match I n (validate v a k None) w with
-                | Done (inl _) w1 => run_vals n t a k w1
+    | v :: t => match I n (validate v a k exc) w with
+                | Done (inl _) w1 => run_vals n t a k exc w1
                 | Done (inr e) w1 => Done (inr e) w1
                 | Susp x kk w1 => Susp x kk w1
                 | OutOfFuel => OutOfFuel
@@ -23,11 +23,12 @@ Section Loops.
 
   (* the generated loop `for validator in self.pres: validator.validate(args, kwargs)`, for any locals record *)
   Section Loop.
-    Variables (env R : Type) (setv : validator -> env -> env) (getv : env -> validator) (geta : env -> pargs) (getk : env -> pkwargs).
+    Variables (env R : Type) (setv : validator -> env -> env) (getv : env -> validator) (geta : env -> pargs) (getk : env -> pkwargs) (gete : env -> option exn).
     Hypothesis getv_set : forall v e, getv (setv v e) = v.
     Hypothesis geta_set : forall v e, geta (setv v e) = geta e.
     Hypothesis getk_set : forall v e, getk (setv v e) = getk e.
-    Let body : stmt env R := s_do (fun e => validate (getv e) (geta e) (getk e) None).
+    Hypothesis gete_set : forall v e, gete (setv v e) = gete e.
+    Let body : stmt env R := s_do (fun e => validate (getv e) (geta e) (getk e) (gete e)).
 
     Definition after_loop (l : list validator) (e : env) : env := fold_left (fun e v => setv v e) l e.
     Lemma after_loop_proj X (proj : env -> X) (Hp : forall v e, proj (setv v e) = proj e) l :
@@ -39,45 +40,102 @@ Section Loops.
     Proof. induction l as [|v t IH]; intro e; [reflexivity|]. cbn. unfold after_loop in IH. rewrite IH. apply getk_set. Qed.
 
     Lemma loop_accept n l : forall e w w1,
-      run_vals n l (geta e) (getk e) w = Done (inl tt) w1 ->
+      run_vals n l (geta e) (getk e) (gete e) w = Done (inl tt) w1 ->
       I n (s_for_list setv l body e) w = Done (inl (CNormal, after_loop l e)) w1.
     Proof.
       induction l as [|v t IH]; intros e w w1 H.
       - cbn in H. inversion H; subst. apply for_nil.
       - cbn [run_vals] in H.
-        destruct (I n (validate v (geta e) (getk e) None) w) as [[[]|x] w2|? ? w2|] eqn:E; try discriminate.
+        destruct (I n (validate v (geta e) (getk e) (gete e)) w) as [[[]|x] w2|? ? w2|] eqn:E; try discriminate.
         assert (Hb : I n (body (setv v e)) w = Done (inl (CNormal, setv v e)) w2).
-        { unfold body. apply do_done. rewrite getv_set, geta_set, getk_set. exact E. }
-        erewrite for_cons_normal by exact Hb. apply IH. rewrite geta_set, getk_set. exact H.
+        { unfold body. apply do_done. rewrite getv_set, geta_set, getk_set, gete_set. exact E. }
+        erewrite for_cons_normal by exact Hb. apply IH. rewrite geta_set, getk_set, gete_set. exact H.
     Qed.
     Lemma loop_reject n l : forall e w x w1,
-      run_vals n l (geta e) (getk e) w = Done (inr x) w1 ->
+      run_vals n l (geta e) (getk e) (gete e) w = Done (inr x) w1 ->
       I n (s_for_list setv l body e) w = Done (inr x) w1.
     Proof.
       induction l as [|v t IH]; intros e w x w1 H.
       - cbn in H. discriminate.
       - cbn [run_vals] in H.
-        destruct (I n (validate v (geta e) (getk e) None) w) as [[[]|y] w2|? ? w2|] eqn:E; try discriminate.
+        destruct (I n (validate v (geta e) (getk e) (gete e)) w) as [[[]|y] w2|? ? w2|] eqn:E; try discriminate.
         + assert (Hb : I n (body (setv v e)) w = Done (inl (CNormal, setv v e)) w2).
-          { unfold body. apply do_done. rewrite getv_set, geta_set, getk_set. exact E. }
-          erewrite for_cons_normal by exact Hb. apply IH. rewrite geta_set, getk_set. exact H.
+          { unfold body. apply do_done. rewrite getv_set, geta_set, getk_set, gete_set. exact E. }
+          erewrite for_cons_normal by exact Hb. apply IH. rewrite geta_set, getk_set, gete_set. exact H.
         + inversion H; subst. apply for_cons_raise. unfold body. apply do_raise.
-          rewrite getv_set, geta_set, getk_set. exact E.
+          rewrite getv_set, geta_set, getk_set, gete_set. exact E.
     Qed.
     Lemma loop_oof n l : forall e w,
-      run_vals n l (geta e) (getk e) w = OutOfFuel ->
+      run_vals n l (geta e) (getk e) (gete e) w = OutOfFuel ->
       I n (s_for_list setv l body e) w = OutOfFuel.
     Proof.
       induction l as [|v t IH]; intros e w H.
       - cbn in H. discriminate.
       - cbn [run_vals] in H.
-        destruct (I n (validate v (geta e) (getk e) None) w) as [[[]|y] w2|? ? w2|] eqn:E; try discriminate.
+        destruct (I n (validate v (geta e) (getk e) (gete e)) w) as [[[]|y] w2|? ? w2|] eqn:E; try discriminate.
         + assert (Hb : I n (body (setv v e)) w = Done (inl (CNormal, setv v e)) w2).
-          { unfold body. apply do_done. rewrite getv_set, geta_set, getk_set. exact E. }
-          erewrite for_cons_normal by exact Hb. apply IH. rewrite geta_set, getk_set. exact H.
-        + apply for_cons_oof. unfold body. apply do_oof. rewrite getv_set, geta_set, getk_set. exact E.
+          { unfold body. apply do_done. rewrite getv_set, geta_set, getk_set, gete_set. exact E. }
+          erewrite for_cons_normal by exact Hb. apply IH. rewrite geta_set, getk_set, gete_set. exact H.
+        + apply for_cons_oof. unfold body. apply do_oof. rewrite getv_set, geta_set, getk_set, gete_set. exact E.
     Qed.
   End Loop.
+
+  (* the conditional loop `for validator in l: if <sel validator>: validator.validate(A, K, exc)` *)
+  Section CondLoop.
+    Variables (env R : Type) (setv : validator -> env -> env) (getv : env -> validator) (geta : env -> pargs) (getk : env -> pkwargs) (gete : env -> option exn).
+    Variable sel : validator -> env -> bool.
+    Hypothesis getv_set : forall v e, getv (setv v e) = v.
+    Hypothesis geta_set : forall v e, geta (setv v e) = geta e.
+    Hypothesis getk_set : forall v e, getk (setv v e) = getk e.
+    Hypothesis gete_set : forall v e, gete (setv v e) = gete e.
+    Hypothesis sel_set : forall u v e, sel u (setv v e) = sel u e.
+    Let body : stmt env R := s_if (fun e => Ret (sel (getv e) e)) (s_do (fun e => validate (getv e) (geta e) (getk e) (gete e))) s_skip.
+
+    Lemma cond_step_skip n v e w : sel v e = false -> I n (body (setv v e)) w = Done (inl (CNormal, setv v e)) w.
+    Proof. intro Hs. unfold body. erewrite if_done by apply interp_ret. rewrite getv_set, sel_set, Hs. apply interp_ret. Qed.
+
+    Lemma cond_loop_accept n l : forall e w w1,
+      run_vals n (filter (fun v => sel v e) l) (geta e) (getk e) (gete e) w = Done (inl tt) w1 ->
+      I n (s_for_list setv l body e) w = Done (inl (CNormal, after_loop setv l e)) w1.
+    Proof.
+      induction l as [|v t IH]; intros e w w1 H.
+      - cbn in H. inversion H; subst. apply for_nil.
+      - cbn [filter] in H. destruct (sel v e) eqn:Hs.
+        + cbn [run_vals] in H.
+          destruct (I n (validate v (geta e) (getk e) (gete e)) w) as [[[]|x] w2|? ? w2|] eqn:E; try discriminate.
+          assert (Hb : I n (body (setv v e)) w = Done (inl (CNormal, setv v e)) w2).
+          { unfold body. erewrite if_done by apply interp_ret. rewrite getv_set, sel_set, Hs.
+            apply do_done. rewrite getv_set, geta_set, getk_set, gete_set. exact E. }
+          erewrite for_cons_normal by exact Hb. apply IH.
+          rewrite geta_set, getk_set, gete_set.
+          erewrite filter_ext; [exact H|]. intro u. apply sel_set.
+        + erewrite for_cons_normal by (apply cond_step_skip; exact Hs). apply IH.
+          rewrite geta_set, getk_set, gete_set.
+          erewrite filter_ext; [exact H|]. intro u. apply sel_set.
+    Qed.
+    Lemma cond_loop_reject n l : forall e w x w1,
+      run_vals n (filter (fun v => sel v e) l) (geta e) (getk e) (gete e) w = Done (inr x) w1 ->
+      I n (s_for_list setv l body e) w = Done (inr x) w1.
+    Proof.
+      induction l as [|v t IH]; intros e w x w1 H.
+      - cbn in H. discriminate.
+      - cbn [filter] in H. destruct (sel v e) eqn:Hs.
+        + cbn [run_vals] in H.
+          destruct (I n (validate v (geta e) (getk e) (gete e)) w) as [[[]|y] w2|? ? w2|] eqn:E; try discriminate.
+          * assert (Hb : I n (body (setv v e)) w = Done (inl (CNormal, setv v e)) w2).
+            { unfold body. erewrite if_done by apply interp_ret. rewrite getv_set, sel_set, Hs.
+              apply do_done. rewrite getv_set, geta_set, getk_set, gete_set. exact E. }
+            erewrite for_cons_normal by exact Hb. apply IH.
+            rewrite geta_set, getk_set, gete_set.
+            erewrite filter_ext; [exact H|]. intro u. apply sel_set.
+          * inversion H; subst. apply for_cons_raise. unfold body.
+            erewrite if_done by apply interp_ret. rewrite getv_set, sel_set, Hs.
+            apply do_raise. rewrite getv_set, geta_set, getk_set, gete_set. exact E.
+        + erewrite for_cons_normal by (apply cond_step_skip; exact Hs). apply IH.
+          rewrite geta_set, getk_set, gete_set.
+          erewrite filter_ext; [exact H|]. intro u. apply sel_set.
+    Qed.
+  End CondLoop.
 
   Definition dbg (b : bool) (w : world) : world := on_st (set_debug b) w.
 End Loops.
